@@ -130,6 +130,14 @@ extern int _mpt_convert_uint(void *val, size_t vlen, const char *src, int base)
 	if (errno == ERANGE) {
 		return MPT_ERROR(BadValue);
 	}
+	/* negated value wraps around */
+	if (tmp) {
+		const char *pos = src;
+		while (pos < end && isspace(*pos)) ++pos;
+		if (*pos == '-') {
+			return MPT_ERROR(BadValue);
+		}
+	}
 	switch (vlen) {
 	  case sizeof(int8_t) :
 		if (tmp > UINT8_MAX) {
